@@ -205,6 +205,9 @@ func modelDiff(a *app.App, inputs []BS, mode app.Mode, asp diffAspects, hooks *d
 			}
 			return &Violation{Kind: "panic", Msg: fmt.Sprintf("request %d (input %s) panics: %s", i, describeVal(in), rs.Panic), Detail: rs.Stack}, f, ""
 		}
+		if rs.Tampered != "" {
+			return at("application-memory-changed", "%s", rs.Tampered), f, ""
+		}
 		if ms.Refused {
 			if rs.ExecErr == "" {
 				return at("refused-accepted", "the input must be refused but Exec returned no error"), f, ""
